@@ -32,7 +32,7 @@ var tagPool = []string{"t1", "t2", "t3", "a b", "x"}
 
 func genCase(t *rapid.T) Case {
 	format := rapid.SampledFrom([]string{"uri", "uripost", "raw", "jsonline"}).Draw(t, "format")
-	c := Case{File: ag.Gen(t, format, ag.GenOpts{MinEntries: 1, MaxEntries: 7, Tags: tagPool})}
+	c := Case{File: ag.Gen(t, format, ag.GenOpts{MinEntries: 1, MaxEntries: 7, Tags: tagPool, AllowBig: true})}
 	switch rapid.IntRange(0, 3).Draw(t, "bounds") {
 	case 0:
 		c.Limit = rapid.IntRange(1, 12).Draw(t, "limit")
@@ -224,6 +224,7 @@ func checkWith(c Case, o *vf.Obs, r *vf.Run) error {
 	}
 	proper := len(c.Chosen) > 0 && len(sel) > 0 && len(sel) < E
 	o.Class("format_" + c.File.Format)
+	o.ClassIf(c.File.Big, "file_larger_than_reader_buffer")
 	o.ClassIf(len(c.Chosen) > 0 && c.Limit > 0, "filter_x_limit")
 	o.ClassIf(len(c.Chosen) > 0 && c.Passes > 0, "filter_x_passes")
 	o.ClassIf(emptyMatch, "empty_match")
